@@ -211,6 +211,8 @@ def key_spec(c):
 
 
 def run(ctx, prog):
+    from rules import shift
+    shift.run(ctx, prog)
     E = {}
     for e in prog.enum("DeserializationError::Code"):
         for c in e["consts"]:
